@@ -6,6 +6,7 @@ package c03
 // each dependency, nobody runs twice.
 
 import (
+	"fmt"
 	"os"
 	"sort"
 	"strings"
@@ -23,6 +24,28 @@ func TestBinary(t *testing.T) {
 	}
 	pbt.Main(t, pbt.Spec[histeng.History]{ID: "C03",
 		Gen: func(t *rapid.T) histeng.History {
+			if rapid.IntRange(0, 5).Draw(t, "group-scenario") == 0 {
+				// a grouping target above two dependencies, next to independent slow targets, fewer workers than runnable
+				// commands: one dependency changes, the other one's blob is gone, everything else has to run as well. The group's
+				// own task then re-runs the second dependency (load_outputs=minimal) - inside the worker bound.
+				nx := rapid.IntRange(2, 4).Draw(t, "independent")
+				w := histeng.WS{Files: map[string]string{"top.txt": "x", "a/top.txt": "y"}, Workers: rapid.IntRange(1, 2).Draw(t, "gworkers"), Algo: "xxh3"}
+				w.Targets = append(w.Targets,
+					histeng.Target{Pkg: "", Name: "d1", Inputs: []string{"top.txt"}, OutFiles: []string{"out/d1.txt"}, SlowMs: rapid.SampledFrom([]int{60, 150}).Draw(t, "d1slow")},
+					histeng.Target{Pkg: "", Name: "d2", Inputs: []string{"top.txt"}, OutFiles: []string{"out/d2.txt"}, SlowMs: 250},
+					histeng.Target{Pkg: "", Name: "grp", Deps: []string{"//:d1", "//:d2"}, NoCommand: true})
+				h := histeng.History{WS: w}
+				h.Steps = append(h.Steps, histeng.Step{Kind: "build", Build: &histeng.BuildOpts{Patterns: []string{"//..."}}})
+				for i := 0; i < nx; i++ {
+					h.WS.Targets = append(h.WS.Targets, histeng.Target{Pkg: "a", Name: fmt.Sprintf("x%d", i), Inputs: []string{"top.txt"}, OutFiles: []string{fmt.Sprintf("out/x%d.txt", i)}, SlowMs: 250})
+				}
+				h.Steps = append(h.Steps, histeng.Step{Kind: "fault-wipe-cas"}, histeng.Step{Kind: "bump-nonce", T: 0})
+				for i := 0; i < nx; i++ {
+					h.Steps = append(h.Steps, histeng.Step{Kind: "bump-nonce", T: 3 + i})
+				}
+				h.Steps = append(h.Steps, histeng.Step{Kind: "build", Build: &histeng.BuildOpts{Patterns: []string{"//..."}, LoadOutputs: "minimal"}})
+				return h
+			}
 			w := histeng.GenWS(t, histeng.Profile{MaxTargets: 10, DirOutputs: true, Workers: []int{1, 2, 3}, Groups: true})
 			for i := range w.Targets {
 				w.Targets[i].SlowMs = rapid.SampledFrom([]int{0, 120, 250}).Draw(t, "slow")
